@@ -69,6 +69,9 @@ func (scp *Isolated) Kill() {
 
 // Stop stop the scope context without error
 func (scp *Isolated) Stop() {
+	// check-then-close must be atomic: concurrent callers would close the channel twice
+	scp.errorsMU.Lock()
+	defer scp.errorsMU.Unlock()
 	if !scp.IsDone() {
 		close(scp.done)
 	}
